@@ -20,7 +20,7 @@ func comparesWholeSignature(r *Run, f *core.FuncInfo) (bool, string) {
 	isSig := func(e ast.Expr) bool {
 		return core.CallAtom([]string{"types.(*Transaction).GetSignature"})(c, e) || core.IsObj("types.Transaction.Signature")(c, e)
 	}
-	ast.Inspect(f.Body(), func(x ast.Node) bool {
+	core.InspectBody(f, func(x ast.Node) bool {
 		call, ok := x.(*ast.CallExpr)
 		if !ok || len(call.Args) != 2 {
 			return true
@@ -43,7 +43,7 @@ func comparesWholeSignature(r *Run, f *core.FuncInfo) (bool, string) {
 		return true
 	})
 	// field-wise: every comparison operand that selects a Signature field / getter
-	ast.Inspect(f.Body(), func(x ast.Node) bool {
+	core.InspectBody(f, func(x ast.Node) bool {
 		var operands []ast.Expr
 		switch e := x.(type) {
 		case *ast.BinaryExpr:
